@@ -14,6 +14,10 @@ from . import core
 def as_row(eng, st, v):
     if isinstance(v, Row):
         return v
+    if isinstance(v, Opaque) and v.kind == 'snapshot' and v.obj.ndim == 1:
+        o = v.obj
+        t = o.term
+        return Row(o.shape[0], lambda q, t=t: z3.Select(t, q), o.esort)
     if isinstance(v, Ref):
         o = st.heap[v.oid]
         if o.ndim != 1:
@@ -1099,8 +1103,32 @@ def np_trace(eng, st, args, kw, node):
     return core.trace1(eng.pure(o.term), to_z3(o.shape[0], INT))
 
 
+def np_diag(eng, st, args, kw, node):
+    """np.diag(v) for a 1-D v: the diagonal matrix (only as the right operand of np.dot, see np_dot)."""
+    v = args[0]
+    if ndim_of(eng, st, v) != 1 or len(args) != 1 or kw:
+        raise OutOfSubset('np.diag form')
+    r = as_row(eng, st, v)
+    zero = to_z3(0, r.esort if r.esort != BOOL else INT)
+    out = Mat((r.n, r.n), lambda x, y, r=r: z3.If(x == y, to_z3(r.fn(x)), zero), r.esort)
+    out.diag_of = r
+    return out
+
+
+def np_square(eng, st, args, kw, node):
+    v = args[0]
+    f = lambda t: eng.binop(ast.Mult(), t, t, st)
+    if isinstance(v, (Ref, Row, Mat)):
+        return elementwise(eng, st, f, v)
+    return f(v)
+
+
 def np_dot(eng, st, args, kw, node):
     a, b = args
+    if isinstance(b, Mat) and getattr(b, 'diag_of', None) is not None and ndim_of(eng, st, a) == 2:
+        # A . diag(v): column y of A scaled by v[y] (exact: one non-zero term per entry)
+        A0, r = as_mat(eng, st, a), b.diag_of
+        return Mat(A0.shape, lambda x, y, A0=A0, r=r: eng.binop(ast.Mult(), A0.fn(x, y), r.fn(y), st), REAL if REAL in (A0.esort, r.esort) else INT)
     if getattr(eng.c, 'dot_support', False) and ndim_of(eng, st, a) == 2 and ndim_of(eng, st, b) == 2:
         # support semantics of a product of entrywise non-negative matrices (a sum of non-negative terms is non-zero iff one term is):
         # the result is a fresh matrix P with P >= 0, P[x][y] != 0 <-> exists z: A[x][z] != 0 and B[z][y] != 0  (if A, B >= 0)
